@@ -9,6 +9,19 @@ COMMON_ASSUME = [
 ]
 
 PROPS = {
+  'C02': {
+    'rule': 'unit stage: cases = (queue of capacity 16 compiled from the tree, prefill 0..8 pushes + 0..8 puts so both storage boundaries are reached, 1 owner (push/pop/put/drain) + 1..3 thieves (take/trypass/peek) with <=12/24 ops each, schedule bytes + tail, x86-TSO store buffering of the top/base stores on in half of the cases); '
+            'non-trivial = two operations overlapped while the queue held <= 2 elements, or the storage was re-centred; '
+            'library stage: C01-style spawn trees + yield storms with a generated custom steal function (wsapi take with declining callback, peek, pass); non-trivial = >= 1 successful steal and >= 1 declined candidate; distinct = hash of (program, schedule, seed)',
+    'assumptions': COMMON_ASSUME + ['x86-TSO is emulated only for the queue index stores (owner top in pop, thief base in take); other architectures are out of reach'],
+    'stages': [
+      {'kind': 'replays', 'name': 'replay', 'variant': 'v0'},
+      {'kind': 'pbt', 'name': 'queue-unit-v0', 'variant': 'v0', 'prop': 2, 'cases': (3000, 60000), 'prog_max': 96, 'sched_max': 384},
+      {'kind': 'pbt', 'name': 'queue-unit-v2', 'variant': 'v2', 'prop': 2, 'cases': (1500, 30000), 'prog_max': 96, 'sched_max': 384},
+      {'kind': 'pbt', 'name': 'library-steal-v0', 'variant': 'v0', 'prop': 22, 'cases': (400, 15000), 'prog_max': 200, 'sched_max': 512},
+      {'kind': 'pbt', 'name': 'library-steal-v2', 'variant': 'v2', 'prop': 22, 'cases': (150, 8000), 'prog_max': 200, 'sched_max': 512},
+    ],
+  },
   'C20': {
     'rule': 'cases = (virtual clock: start value with nanosecond field at both ends, cycle of 1..8 per-reading increments from {0,1ns,..,2s}; 1..4 threads with scripts of nanosleep/usleep/sleep (incl. zero, carries, malformed fields), timedlock against holder sections and on uncontended mutexes, timedjoin against targets of generated length, deadlines past / in k ticks -1/0/+1 ns; one quarter of the cases on one worker with an always-runnable sibling; W in 1..8; schedule); '
             'non-trivial = a sleep really polled the clock (>= 3 readings) or a timed lock / timed join timed out; distinct = hash of (program, schedule, seed)',
